@@ -5,6 +5,7 @@
 (c) evaluation: variables pinned to constant expressions must get exactly the denoted value; connectives their truth-table value.
 """
 import os
+import re
 import shutil
 import subprocess
 import tempfile
@@ -82,7 +83,9 @@ def lex_work(exe, start, n):
         except rlex.LexError:
             part.count("lex: generated streams the language does not define (skipped)")
             continue
-        if any(k in ("IntLiteral", "RealLiteral") and len(v) > 18 for k, v in ref):
+        # (the reference token carries the VALUE; a numeral may also be long because of leading zeros or trailing decimals: what the lexer does with
+        # more than 18 digit characters in a row is not defined by the language, it may accept or report them)
+        if any(k in ("IntLiteral", "RealLiteral") and len(v) > 18 for k, v in ref) or re.search(r"[0-9][0-9.]{17,}", text):
             part.count("lex: streams with numerals beyond 64 bits (skipped: owned by C18)")
             continue
         cases.append((text, ref))
